@@ -122,8 +122,8 @@ pub fn log_verdict(s: Layout, d: Layout, a: u128, out: TOut, natural: bool) -> V
     match out {
         TOut::Ok(r) => {
             let rz = d.z(r);
-            // sign rule
-            if (x.le(&one) && !rz.is_neg() && !rz.is_zero()) || (one.le(&x) && rz.is_neg()) {
+            // sign rule (stated for log2 only)
+            if !natural && ((x.le(&one) && !rz.is_neg() && !rz.is_zero()) || (one.le(&x) && rz.is_neg())) {
                 return bad("sign", "result <= 0 for x <= 1 and >= 0 for x >= 1".into(), format!("operand = {} * 2^-{}", x, d.frac), f64::INFINITY);
             }
             if !natural && x.bits() > 0 && x == Z::pow2(x.bits() - 1) {
@@ -239,6 +239,12 @@ pub fn pow_verdict(s: Layout, d: Layout, a: u128, b: u128, out: TOut) -> Verdict
         };
     }
     if xs.is_neg() {
+        // undefined only for a fractional exponent; an integral power of a negative base is defined and the
+        // properties say nothing about it (C15 judges positive bases only)
+        let integral = ys.shr_floor(s.frac).shl(s.frac) == ys;
+        if integral {
+            return Verdict::Unjudged;
+        }
         return match out {
             TOut::Err => Verdict::Fine { ratio: 0.0 },
             _ => Verdict::MustErr("fractional power of a negative base".into()),
@@ -447,6 +453,31 @@ pub fn pow_exponent_error_amplified(s: Layout, d: Layout, a: u128, b: u128) -> b
     // y * log_err may be astronomically large: compare in f64
     yh.abs().to_f64() * log_err.to_f64() >= 0.125
 }
+
+/// Inside the region the finding explains a result only if it is what exp(y * l') gives for SOME l' within the
+/// error C14 permits for ln x (widened by the bounds of exp and 64 ulp): anything else is a different failure.
+pub fn pow_result_explained_by_log_error(s: Layout, d: Layout, a: u128, b: u128, r: u128) -> bool {
+    let x = to_dst(s, d, a);
+    let yh = hp_of(&s.z(b), s.frac);
+    let l = hp::ln(hp_of(&x, d.frac));
+    // the library multiplies y by its (rounded) ln: one more ulp of slack on the logarithm
+    let delta = l.abs().shr(23).add(ulp(d).mul_small(10));
+    let (t1, t2) = (yh.mul(l.sub(delta)), yh.mul(l.add(delta)));
+    let (tlo, thi) = if t1.lt(&t2) { (t1, t2) } else { (t2, t1) };
+    let rh = hp_of(&d.z(r), d.frac);
+    let slack = ulp(d).mul_small(128);
+    // lower edge
+    let lo_ok = match exp_ref(tlo) {
+        None => false, // even the smallest admissible exponent overflows: no Ok result is explained
+        Some(e) => e.sub(e.shr(17)).sub(slack).le(&rh),
+    };
+    let hi_ok = match exp_ref(thi) {
+        None => true,
+        Some(e) => rh.le(&e.add(e.shr(17)).add(slack)),
+    };
+    lo_ok && hi_ok
+}
+
 pub const KF_POW: &str = "pow-exponent-error-amplified";
 
 pub fn selftest() {
